@@ -816,6 +816,8 @@ class RF24:
         # self._reg_write(0xE3)
         up_cnt = 0
         self._ce_pin.value = True
+        # the STATUS byte shifted out while clearing the flags still shows the old flags
+        self.update()
         while not self._in[0] & 0x30:
             up_cnt += self.update()
         # self._ce_pin.value = False
